@@ -1,0 +1,69 @@
+//go:build verif
+
+package sleep
+
+// Machine-checked contracts for /verif (govc). This file is comment-only and
+// compiled only with -tags verif; it changes no behaviour.
+//
+// Notation: E = w.cfg.Epoch, C = w.cfg.CycleLength, L = w.cfg.WindowLength,
+// tol = w.cfg.ClockTolerance, off = offsetOf(C, L, agentID).
+// Window k of an agent is [E + off + k*C, E + off + k*C + L].
+
+//@ ghost func seedOf(id identity.AgentID) int = be64(id, 0) ^ be64(id, 8)
+//@ ghost func offsetOf(c int64, l int64, id identity.AgentID) int = ite(c - l <= 0, 0, fmod(seedOf(id), c - l))
+
+//@ func seedFromAgentID
+//@ prop C33
+//@ check bounds
+//@ ensures result == seedOf(agentID)
+
+//@ func NewWindowCalculator
+//@ prop C33
+//@ requires cfg.CycleLength > 0
+//@ ensures result.cfg.CycleLength == cfg.CycleLength
+//@ ensures result.cfg.WindowLength < result.cfg.CycleLength
+//@ ensures cfg.WindowLength < cfg.CycleLength ==> result.cfg.WindowLength == cfg.WindowLength
+//@ ensures result.cfg.ClockTolerance == cfg.ClockTolerance
+
+//@ func (*WindowCalculator).windowOffset
+//@ prop C33
+//@ check div0
+//@ requires w.cfg.CycleLength > 0
+//@ requires w.cfg.WindowLength >= 0
+//@ ensures result == offsetOf(w.cfg.CycleLength, w.cfg.WindowLength, agentID)
+//@ ensures 0 <= result
+//@ ensures w.cfg.WindowLength >= 0 && w.cfg.WindowLength < w.cfg.CycleLength ==> result + w.cfg.WindowLength < w.cfg.CycleLength
+
+//@ func (*WindowCalculator).cycleStart
+//@ prop C33
+//@ check div0
+//@ requires w.cfg.CycleLength > 0
+//@ ensures result == w.cfg.Epoch + fdiv(t - w.cfg.Epoch, w.cfg.CycleLength) * w.cfg.CycleLength
+
+//@ func (*WindowCalculator).NextWindow
+//@ prop C33
+//@ requires w.cfg.CycleLength > 0
+//@ requires 0 <= w.cfg.WindowLength && w.cfg.WindowLength < w.cfg.CycleLength
+//@ ensures fmod(start - w.cfg.Epoch - offsetOf(w.cfg.CycleLength, w.cfg.WindowLength, agentID), w.cfg.CycleLength) == 0
+//@ ensures end == start + w.cfg.WindowLength
+//@ ensures end >= now
+//@ ensures end - w.cfg.CycleLength < now
+
+//@ func (*WindowCalculator).GetWindowInfo
+//@ prop C33
+//@ requires w.cfg.CycleLength > 0
+//@ requires 0 <= w.cfg.WindowLength && w.cfg.WindowLength < w.cfg.CycleLength
+//@ requires w.cfg.ClockTolerance >= 0
+//@ ensures fmod(now - w.cfg.Epoch - offsetOf(w.cfg.CycleLength, w.cfg.WindowLength, agentID) + w.cfg.ClockTolerance, w.cfg.CycleLength) < w.cfg.WindowLength + 2*w.cfg.ClockTolerance ==> result.CurrentlyActive
+//@ ensures result.CurrentlyActive ==> fmod(now - w.cfg.Epoch - offsetOf(w.cfg.CycleLength, w.cfg.WindowLength, agentID) + w.cfg.ClockTolerance, w.cfg.CycleLength) <= w.cfg.WindowLength + 2*w.cfg.ClockTolerance
+//@ ensures result.End == result.Start + w.cfg.WindowLength
+//@ ensures result.SafeStart == result.Start - w.cfg.ClockTolerance
+//@ ensures result.SafeEnd == result.End + w.cfg.ClockTolerance
+
+//@ func (*WindowCalculator).IsInWindow
+//@ prop C33
+//@ requires w.cfg.CycleLength > 0
+//@ requires 0 <= w.cfg.WindowLength && w.cfg.WindowLength < w.cfg.CycleLength
+//@ requires w.cfg.ClockTolerance >= 0
+//@ ensures fmod(t - w.cfg.Epoch - offsetOf(w.cfg.CycleLength, w.cfg.WindowLength, agentID) + w.cfg.ClockTolerance, w.cfg.CycleLength) < w.cfg.WindowLength + 2*w.cfg.ClockTolerance ==> result
+//@ ensures result ==> fmod(t - w.cfg.Epoch - offsetOf(w.cfg.CycleLength, w.cfg.WindowLength, agentID) + w.cfg.ClockTolerance, w.cfg.CycleLength) <= w.cfg.WindowLength + 2*w.cfg.ClockTolerance
